@@ -291,8 +291,40 @@ func runC04(c *Ctx) {
 			cty.TupleVal([]cty.Value{cty.StringVal("a"), cty.Zero.Mark(markM2)}),
 			cty.TupleVal([]cty.Value{cty.StringVal("b"), cty.Zero}).Mark(markM3),
 			cty.TupleVal([]cty.Value{cty.StringVal("a"), cty.Zero}),
+			// marked at its own top level and inside, at once
+			cty.TupleVal([]cty.Value{cty.StringVal("c").Mark(markM1), cty.Zero}).Mark(markM2),
+			cty.TupleVal([]cty.Value{cty.StringVal("a"), cty.Zero.Mark(markM3)}).Mark(markM3),
 		}
 		seqs(tm, 3, func(ms []cty.Value) {
+			if len(ms) == 0 {
+				return
+			}
+			u.Eval(1)
+			u.Distinct("SetVal" + argsStr(ms))
+			c04SetCtor(u, ms)
+		})
+	})
+	c.Unit(func(u *U) {
+		lm := []cty.Value{
+			cty.ListVal([]cty.Value{cty.StringVal("x")}),
+			cty.ListVal([]cty.Value{cty.StringVal("x").Mark(markM1)}).Mark(markM2),
+			cty.ListVal([]cty.Value{cty.StringVal("y"), cty.UnknownVal(cty.String).Mark(markM3)}).Mark(markM1),
+			cty.NullVal(cty.List(cty.String)).Mark(markM2),
+		}
+		seqs(lm, 3, func(ms []cty.Value) {
+			if len(ms) == 0 {
+				return
+			}
+			u.Eval(1)
+			u.Distinct("SetVal" + argsStr(ms))
+			c04SetCtor(u, ms)
+		})
+		om := []cty.Value{
+			cty.ObjectVal(map[string]cty.Value{"a": cty.StringVal("x"), "b": cty.ListVal([]cty.Value{cty.True})}),
+			cty.ObjectVal(map[string]cty.Value{"a": cty.StringVal("x").Mark(markM1), "b": cty.ListVal([]cty.Value{cty.True.Mark(markM2)})}).Mark(markM3),
+			cty.ObjectVal(map[string]cty.Value{"a": cty.StringVal("y"), "b": cty.ListVal([]cty.Value{cty.False}).Mark(markM1)}).Mark(markM1),
+		}
+		seqs(om, 3, func(ms []cty.Value) {
 			if len(ms) == 0 {
 				return
 			}
